@@ -231,7 +231,7 @@ fn n_cases(target: &str, seed: &[u8], family: &str, tier: Tier) -> usize {
         "utf8-insert" => (n + 1) * 3,
         "bad-utf8" => (n + 1) * 2,
         "nesting" => {
-            if target == "json" || target == "config" || target == "wsmsg" {
+            if target == "json" || target == "config" || target == "wsmsg" || target == "request" || target == "response" {
                 8
             } else {
                 0
@@ -443,6 +443,17 @@ fn make_case(target: &str, seed: &[u8], family: &str, k: usize, rng_seed: u64) -
                     v.extend([op, 0x00]);
                 }
                 v.extend(b"\x81\x05hello");
+                return (v, None);
+            }
+            if target == "request" || target == "response" {
+                // the HTTP analogue: a long run of empty lines (CRLF, or bare LF) in front of an
+                // otherwise ordinary message (a parser that skips them by recursion runs out of stack)
+                let n = [10usize, 1000, 100_000, 1_000_000, 10, 1000, 100_000, 1_000_000][k % 8];
+                let mut v = Vec::new();
+                for _ in 0..n {
+                    v.extend(if k % 8 < 4 { &b"\r\n"[..] } else { &b"\n"[..] });
+                }
+                v.extend(seed);
                 return (v, None);
             }
             if target == "json" {
@@ -658,7 +669,7 @@ impl Prop for C03 {
         false
     }
     fn rule(&self) -> &'static str {
-        "Per target (HTTP request parser, HTTP response parser, WebSocket frame decoder, WebSocket message reader blocking and non-blocking over a simulated socket, JSON parser, config parser incl. include files) and per seed message (2..6 fixed ones per target; the thorough tier adds 96 generated ones per target: requests, responses, frame scripts, JSON texts and config files of at most 500 bytes), the fault families are enumerated completely: EOF at EVERY offset, ConnectionReset at every offset, every single-byte substitution from a 16-symbol protocol alphabet at every offset, every single bit flip, each CR/LF/colon/space/comma/brace/quote deleted and doubled, every contiguous span of 1..24 bytes deleted at every offset, every number in the message replaced by 22 boundary and huge decimal/hex values (frames: 14 claimed lengths up to 2^64-1 with 10 bytes of data), a 2/3/4-byte UTF-8 character and an invalid byte inserted at every position, nesting to depth 100000 (WebSocket messages: runs of 1000..100000 empty ping or pong frames in front of a data frame), all strings of up to 3-4 tokens over the protocol alphabets (config: additionally all strings of up to 4 tokens inside an open `server {` section), plus seeded random edits; each case delivered all-at-once and one byte per read. Distinct non-trivial = distinct (target, seed, family, case) that differs from the valid seed; evaluations = parser calls."
+        "Per target (HTTP request parser, HTTP response parser, WebSocket frame decoder, WebSocket message reader blocking and non-blocking over a simulated socket, JSON parser, config parser incl. include files) and per seed message (2..6 fixed ones per target; the thorough tier adds 96 generated ones per target: requests, responses, frame scripts, JSON texts and config files of at most 500 bytes), the fault families are enumerated completely: EOF at EVERY offset, ConnectionReset at every offset, every single-byte substitution from a 16-symbol protocol alphabet at every offset, every single bit flip, each CR/LF/colon/space/comma/brace/quote deleted and doubled, every contiguous span of 1..24 bytes deleted at every offset, every number in the message replaced by 22 boundary and huge decimal/hex values (frames: 14 claimed lengths up to 2^64-1 with 10 bytes of data), a 2/3/4-byte UTF-8 character and an invalid byte inserted at every position, nesting to depth 100000 (WebSocket messages: runs of 1000..100000 empty ping or pong frames in front of a data frame; HTTP requests and responses: runs of 10..1000000 empty lines, CRLF or bare LF, in front of the message), all strings of up to 3-4 tokens over the protocol alphabets (config: additionally all strings of up to 4 tokens inside an open `server {` section), plus seeded random edits; each case delivered all-at-once and one byte per read. Distinct non-trivial = distinct (target, seed, family, case) that differs from the valid seed; evaluations = parser calls."
     }
     fn assumptions(&self) -> Vec<String> {
         vec![
